@@ -41,6 +41,17 @@ def check(run):
     pf = [h for h in pf if any(e["op"] == "peerfail" for e in h) and h[0]["op"] == "connect"]
     pf = pf[:: max(1, len(pf) // (60 if thorough else 8))]
     scns += [sessionlib.build(h, CAST) for h in pf]
+    # the same kind of scripts with every broadcast held back and then delivered newest first (removals overtake the creations
+    # they refer to); without cross-node publishes, whose routing needs the publisher's view to be current
+    held = [h for h in rest if not any(e["op"] == "publish" for e in h) and any(e["op"] == "sub" for e in h) and any(e["op"] == "end" for e in h)]
+    held = held[:: max(1, len(held) // (400 if thorough else 40))]
+    for h in held:
+        s0 = sessionlib.build(h, dict(CAST, publishers=[]))
+        ops = s0["ops"]
+        tail = [o for o in ops if o["op"] == "quiesce" or (o["op"] == "send" and o.get("kind") == "PINGREQ" and o is not None and ops.index(o) >= len(ops) - 3)]
+        body = ops[:len(ops) - len(tail)]
+        s0["ops"] = [{"op": "gossip", "mode": "hold"}] + body + [{"op": "gossip", "mode": "reverse"}, {"op": "settle"}] + tail
+        scns.append(s0)
     run.log("%d session scripts from TLC (%d idle right after CONNECT, %d with a node failure)" % (len(scns), len(first_idle), len(pf)))
     tpath, crashes = brokerlib.execute(run, scns, "c11", shards=14, timeout=3000)
     if crashes:
